@@ -21,6 +21,9 @@ CLAIMED = {
  "C05": dict(cat="proof", ref="DESIGN.md 4 (C05), 9",
   text="The independent codec is the set of layout assertions written from the RFC 7296 text into the lemma functions (offsets, widths, endianness, reserved octets zero, length fields equal to real extents, last-substructure markers, next-payload chain ending in 0, header length = datagram size): they are proved of the real encoders' output for all field values, and the real decoders are proved to recover the fields from arbitrary reference-built bytes, including sender liberties (reserved bits set, critical flag on understood payloads). Loop-free payloads and the header without bound; list bodies as bounded stand-ins as in C03.",
   note="'transforms in any order' is covered per transform (each is filed under its own type) in the bounded SA lemmas only."),
+ "C10": dict(cat="proof", ref="DESIGN.md 4 (C10), 9.2",
+  text="NewCrypto, Encrypt and Decrypt of the AES-CBC transform are executed symbolically for all three key sizes, every key and every plaintext / ciphertext (any length), with AES-CBC as an uninterpreted function over abstract byte strings and the single axiom CBCdec(k,iv,CBCenc(k,iv,x)) = x. Obligations: key accepted iff its length is the negotiated one and library-made objects carry no fixed IV/padding; size law len = 16+16k, n < 16k <= n+16; the leading 16 octets are exactly this call's successful draw from the system random source and the object retains nothing; the body decrypts under a textbook crypto/cipher CBC decrypter (written in the lemma) to the plaintext followed by padding whose last octet is 16k-n-1; any failing read of the random source yields an error and no ciphertext; Decrypt(Encrypt(p)) = p; short / misaligned / impossible-pad ciphertexts are refused and every possible pad length 0..255 is accepted with the textbook result.",
+  note="'no IV repeats across calls' is a property of the random source's distribution and is not decided (only provenance: the IV is the call's own unmodified draw). The padding loop (<= 15 iterations) is unrolled completely with the unwinding assertion on. crypto/aes + crypto/cipher are assumed to be textbook AES-CBC."),
  "C11": dict(cat="proof", ref="DESIGN.md 4 (C11)",
   text="The registries' post-init state is computed by symbolically executing the packages' init functions; DecodeTransform/ToTransform/StrToType of all five registries and the proposal<->SA conversions are then verified for a fully symbolic transform (all 65536 identifiers, every attribute type/value/format/presence, any TLV bytes) in single quantifier-free queries: a decoded algorithm always carries the transform's identifier and key size, ToTransform;DecodeTransform is the identity on every registered descriptor, the length tables equal the RFC values written into the lemmas, and unsupported input yields nil / an error.",
   note="Key/output lengths are compared with constants typed from RFCs 2403/2404/4868/3602/2409/3526 in /verif/contracts/security."),
